@@ -328,6 +328,50 @@ func c05Main(args []string) error {
 		fmt.Println(string(b))
 		return nil
 	}
+	if len(args) == 3 && args[0] == "mpcl" {
+		// programs generated from specs/Mpcl.tla (arrays, structs, loops, calls, early returns, ...), each with the
+		// interpreter's test vectors: run in streaming mode and in whole-circuit mode on some of the vectors
+		out, err := newND(args[2])
+		if err != nil {
+			return err
+		}
+		defer out.close()
+		rng := rand.New(rand.NewSource(seed()*2971215073 + 5))
+		idx := 0
+		nviol := 0
+		return readND(args[1], func(raw json.RawMessage) error {
+			var mc mpCase
+			if err := json.Unmarshal(raw, &mc); err != nil {
+				return err
+			}
+			if nviol >= 6 || len(mc.Tests) == 0 {
+				return nil
+			}
+			src := renderMpcl(&mc)
+			nvec := 1
+			if thorough() {
+				nvec = 2
+			}
+			for k := 0; k < nvec; k++ {
+				t := mc.Tests[rng.Intn(len(mc.Tests))]
+				res := &Result{Case: idx, Nontrivial: len(mc.Stmts) >= 3}
+				idx++
+				c05One(res, src, fmt.Sprint(t[0]), fmt.Sprint(t[1]), nil, uint64(seed())<<32+uint64(idx))
+				if res.Class == "compared" {
+					res.Class = "mpcl-generated"
+				}
+				if len(res.Viol) > 0 {
+					res.Sample = src
+					nviol++
+				}
+				out.put(res)
+				if res.Class == "rejected" {
+					break
+				}
+			}
+			return nil
+		})
+	}
 	if len(args) < 4 || args[0] != "run" {
 		return fmt.Errorf("usage: vh c05 run trace results nprogs")
 	}
@@ -385,7 +429,7 @@ func c05Main(args []string) error {
 			}
 			var wev []swEv
 			var wevp *[]swEv
-			if wtr != nil && k == 0 && wtraced < 80 {
+			if wtr != nil && k == 0 && wtraced < 45 {
 				wevp = &wev
 			}
 			c05One(res, src, pgInput(rng, a), pgInput(rng, b), recp, uint64(seed())<<32+uint64(idx), wevp)
@@ -453,6 +497,23 @@ func c05Main(args []string) error {
 			}
 			idx++
 			out.put(res)
+		}
+	}
+	for li, src := range pgLivenessPrograms() {
+		bits := 8
+		if strings.Contains(src, "uint32") {
+			bits = 32
+		}
+		_ = li
+		v := pgScalar("a", bits, false)
+		run(src, v, v, 1, "liveness-order")
+	}
+	for ti, t := range pgConstWidthTemplates {
+		for wi, T := range []string{"uint64", "int64", "uint40", "uint128"} {
+			bits := []int{64, 64, 40, 128}[wi]
+			v := pgScalar("a", bits, T[0] == 'i')
+			_ = ti
+			run(fmt.Sprintf(t, T), v, v, 2, "const-width-template")
 		}
 	}
 	u8 := pgScalar("a", 8, false)
